@@ -126,7 +126,10 @@ pub fn step(name: &str, detail: &str) {
         while st.park.get(name) == Some(&ParkState::Parked) {
             st = cv.wait(st).unwrap_or_else(|e| e.into_inner());
         }
-        st.park.remove(name);
+        // the driver may already have re-armed this point for the next occurrence
+        if st.park.get(name) == Some(&ParkState::Released) {
+            st.park.remove(name);
+        }
     }
 }
 
